@@ -169,6 +169,21 @@ def apply(it, fn, args, dest_ty, term, caller, depth):
             if r is not None:
                 return r
 
+    # ---- Option / Result combinators (generic bodies of core are not exported in DT mode)
+    if path.startswith("core::option::Option") and args:
+        r = option_model(it, name, fn, args, dest_ty, term, caller, depth)
+        if r is not NotImplemented:
+            return r
+
+    # ---- abstract iterators / VecDeque
+    if "VecDeque" in path or "vec_deque" in path:
+        r = deque_model(it, name, fn, args, dest_ty)
+        if r is not NotImplemented:
+            return r
+    r = iter_model(it, fn, name, args, dest_ty, term, caller, depth)
+    if r is not NotImplemented:
+        return r
+
     # ---- Range<int> iteration
     if name == "next" and len(args) == 1 and isinstance(args[0], Ref):
         v = it.read(args[0].cell, args[0].path)
@@ -332,4 +347,328 @@ def index_model(it, base, idx):
         if s.val > e.val or e.val > n:
             raise Diverge("slice range %d..%d out of range %d" % (s.val, e.val, n))
         return Ref(base.cell, base.path, base.off + s.val, e.val - s.val)
+    return NotImplemented
+
+
+def option_model(it, name, fn, args, dest_ty, term, caller, depth):
+    o = args[0]
+    byref = False
+    if isinstance(o, Ref):
+        byref = True
+        ov = it.read(o.cell, o.path)
+    else:
+        ov = o
+    if not (isinstance(ov, Adt) and ov.name.endswith("option::Option")):
+        return NotImplemented
+    is_some = ov.variant == 1
+    if name in ("expect", "unwrap", "unwrap_unchecked"):
+        if is_some:
+            return ov.fields[0]
+        raise Diverge("%s on None at %s" % (name, it.facts.site(caller, term.get("ln"))))
+    if name == "is_some":
+        return mkbool(is_some)
+    if name == "is_none":
+        return mkbool(not is_some)
+    if name == "unwrap_or":
+        return ov.fields[0] if is_some else args[1]
+    if name in ("as_ref", "as_mut") and byref:
+        if is_some:
+            return some(Ref(o.cell, o.path + (("f", 0),)))
+        return none()
+    if name in ("cloned", "copied"):
+        if is_some:
+            return some(deref_val(it, ov.fields[0]))
+        return none()
+    if name == "map":
+        if not is_some:
+            return none()
+        r = call_callable(it, args[1], [ov.fields[0]], term, caller, depth)
+        return some(r)
+    if name in ("unwrap_or_else",):
+        if is_some:
+            return ov.fields[0]
+        return call_callable(it, args[1], [], term, caller, depth)
+    if name == "take" and byref:
+        it.write(o.cell, o.path, none())
+        return ov
+    return NotImplemented
+
+
+def call_callable(it, f, argvals, term, caller, depth):
+    """call a closure / fn item value with the given argument values"""
+    fv = deref_val(it, f)
+    if isinstance(fv, Closure):
+        body = it.facts.fns.get(fv.path) if not it.mono else None
+        if body is None:
+            for k, b in it.facts.insts.items():
+                if b["path"] == fv.path:
+                    body = b
+                    break
+        if body is None:
+            body = it.facts.fns.get(fv.path)
+        if body is None:
+            raise Unsupported("closure body %s not found" % fv.path)
+        env = f if isinstance(f, Ref) else Ref(Cell(fv, "closure-env"))
+        a1 = it.tinfo(body["locals"][1]).get("k") if body["argc"] >= 1 else None
+        recv = env if a1 == "ref" else fv
+        return it.call_body(body, [recv] + list(argvals), depth + 1)
+    if isinstance(fv, FnItem):
+        return it.do_call(fv, list(argvals), "?", term, caller, depth)
+    if it.h is not None:
+        r = it.h.indirect_call(it, fv, argvals, "?", term, caller)
+        if r is not None:
+            return r
+    return Opaque("?", tags_of(fv) | {"indirect-call"})
+
+
+# --------------------------------------------------------------------------- abstract iterators
+
+class IterV:
+    """abstract iterator value (immutable; `next` writes the advanced iterator back through the &mut reference)"""
+    __slots__ = ("kind", "a", "tags")
+
+    def __init__(self, kind, a, tags=frozenset()):
+        self.kind = kind
+        self.a = a          # kind-specific tuple
+        self.tags = tags
+
+    def __repr__(self):
+        return "iter<%s %r>" % (self.kind, self.a if self.kind != "slice" else self.a[1:])
+
+
+ITER_ADAPTERS = ("map", "enumerate", "take", "skip", "rev", "cloned", "copied", "peekable", "step_by", "zip", "chain", "filter_map", "filter")
+
+
+def seq_len(it, ref):
+    s = seq_of(it, ref)
+    if s is None:
+        return None
+    return s[2]
+
+
+def iter_model(it, fn, name, args, dest_ty, term, caller, depth):
+    """creation of iterators and Iterator::next on them.  returns NotImplemented when not an abstract iterator"""
+    path = _strip(fn.get("path", ""))
+    tr = fn.get("trait", "")
+    # ---- creation from slices / vecs / deques
+    if name in ("iter", "iter_mut") and len(args) == 1 and isinstance(args[0], Ref):
+        s = seq_of(it, args[0])
+        if s is not None:
+            v, off, n = s
+            return IterV("slice", (args[0], 0, n))
+        dq = it.read(args[0].cell, args[0].path)
+        if isinstance(dq, DequeV):
+            return IterV("deque", (args[0], 0, len(dq.elems)))
+    if name == "chunks" and len(args) == 2 and isinstance(args[0], Ref) and isinstance(args[1], Int) and args[1].is_conc():
+        s = seq_of(it, args[0])
+        if s is not None:
+            return IterV("chunks", (args[0], 0, s[2], args[1].val))
+    if name == "into_iter" and len(args) == 1:
+        a = args[0]
+        if isinstance(a, IterV):
+            return a
+        if isinstance(a, Ref):
+            v = it.read(a.cell, a.path)
+            if isinstance(v, (Arr, VecV)):
+                n = (len(v.elems) - a.off) if a.len is None else a.len
+                return IterV("slice", (a, 0, n))
+            if isinstance(v, DequeV):
+                return IterV("deque", (a, 0, len(v.elems)))
+        if isinstance(a, (VecV, Arr)):
+            cell = Cell(a, "into_iter-owned")
+            return IterV("owned", (Ref(cell), 0, len(a.elems)))
+    # ---- adapters
+    if tr.endswith("iter::Iterator") or tr.endswith("iterator::Iterator") or tr.endswith("DoubleEndedIterator"):
+        if name in ITER_ADAPTERS and args and isinstance(args[0], (IterV, Adt)):
+            inner = args[0]
+            if isinstance(inner, Adt) and not inner.name.endswith("ops::Range"):
+                return NotImplemented
+            if name == "map":
+                return IterV("map", (inner, args[1]))
+            if name == "enumerate":
+                return IterV("enumerate", (inner, 0))
+            if name in ("take", "skip", "step_by"):
+                n = args[1]
+                if not (isinstance(n, Int) and n.is_conc()):
+                    raise Undecided("%s with symbolic count %r" % (name, n))
+                return IterV(name, (inner, n.val) if name != "step_by" else (inner, n.val, True))
+            if name == "rev":
+                return IterV("rev", (inner,))
+            if name in ("cloned", "copied"):
+                return IterV("cloned", (inner,))
+            if name == "peekable":
+                return IterV("peekable", (inner, None))
+            return NotImplemented
+        if name in ("next", "next_back") and len(args) == 1 and isinstance(args[0], Ref):
+            cur = it.read(args[0].cell, args[0].path)
+            if isinstance(cur, IterV):
+                new, item = iter_next(it, cur, term, caller, depth, back=(name == "next_back"))
+                it.write(args[0].cell, args[0].path, new)
+                return item
+        if name == "collect" and args and isinstance(args[0], (IterV,)):
+            cur = args[0]
+            out = []
+            for _ in range(100000):
+                cur, item = iter_next(it, cur, term, caller, depth)
+                if item.variant == 0:
+                    break
+                out.append(item.fields[0])
+            return VecV(out)
+        if name == "count" and args and isinstance(args[0], IterV):
+            cur = args[0]
+            n = 0
+            for _ in range(100000):
+                cur, item = iter_next(it, cur, term, caller, depth)
+                if item.variant == 0:
+                    break
+                n += 1
+            return Int(64, False, val=n)
+    if name == "peek" and len(args) == 1 and isinstance(args[0], Ref):
+        cur = it.read(args[0].cell, args[0].path)
+        if isinstance(cur, IterV) and cur.kind == "peekable":
+            inner, peeked = cur.a
+            if peeked is None:
+                inner, item = iter_next(it, inner, term, caller, depth)
+                peeked = item
+                it.write(args[0].cell, args[0].path, IterV("peekable", (inner, peeked)))
+            if peeked.variant == 0:
+                return none()
+            # reference to the peeked item
+            return some(Ref(Cell(peeked.fields[0], "peeked")))
+    if name == "size_hint" and len(args) == 1 and isinstance(args[0], Ref):
+        cur = it.read(args[0].cell, args[0].path)
+        if isinstance(cur, IterV) and cur.kind in ("slice", "owned", "deque"):
+            n = cur.a[2] - cur.a[1]
+            return Tup([Int(64, False, val=n), some(Int(64, False, val=n))])
+    return NotImplemented
+
+
+def iter_next(it, cur, term, caller, depth, back=False):
+    """returns (advanced iterator, Option item)"""
+    k = cur.kind
+    if isinstance(cur, Adt):  # Range<int>
+        s, e = cur.fields
+        lt = bv.compare("Lt", s, e)
+        if lt is None and it.h is not None:
+            lt = it.h.unknown_compare(it, "Lt", s, e)
+        if lt is None:
+            raise Undecided("range bound %r < %r" % (s, e))
+        if not lt:
+            return cur, none()
+        one = s.like(val=1)
+        if back:
+            e2 = bv.binop("Sub", e, one)
+            return Adt(cur.name, 0, [s, e2]), some(e2)
+        return Adt(cur.name, 0, [bv.binop("Add", s, one), e]), some(s)
+    if k in ("slice", "owned", "deque"):
+        ref, pos, end = cur.a
+        if pos >= end:
+            return cur, none()
+        if back:
+            idx = end - 1
+            nxt = IterV(k, (ref, pos, end - 1))
+        else:
+            idx = pos
+            nxt = IterV(k, (ref, pos + 1, end))
+        eref = Ref(ref.cell, ref.path + (("e", ref.off + idx),))
+        if k == "owned":
+            return nxt, some(it.read(eref.cell, eref.path))
+        return nxt, some(eref)
+    if k == "chunks":
+        ref, pos, n, size = cur.a
+        if pos >= n:
+            return cur, none()
+        ln = min(size, n - pos)
+        return IterV(k, (ref, pos + ln, n, size)), some(Ref(ref.cell, ref.path, ref.off + pos, ln))
+    if k == "map":
+        inner, f = cur.a
+        inner, item = iter_next(it, inner, term, caller, depth, back)
+        if item.variant == 0:
+            return IterV(k, (inner, f)), none()
+        r = call_callable(it, f, [item.fields[0]], term, caller, depth)
+        return IterV(k, (inner, f)), some(r)
+    if k == "enumerate":
+        inner, n = cur.a
+        inner, item = iter_next(it, inner, term, caller, depth)
+        if item.variant == 0:
+            return IterV(k, (inner, n)), none()
+        return IterV(k, (inner, n + 1)), some(Tup([Int(64, False, val=n), item.fields[0]]))
+    if k == "take":
+        inner, n = cur.a
+        if n == 0:
+            return cur, none()
+        inner, item = iter_next(it, inner, term, caller, depth)
+        if item.variant == 0:
+            return IterV(k, (inner, 0)), none()
+        return IterV(k, (inner, n - 1)), item
+    if k == "skip":
+        inner, n = cur.a
+        while n > 0:
+            inner, item = iter_next(it, inner, term, caller, depth)
+            n -= 1
+            if item.variant == 0:
+                return IterV(k, (inner, 0)), none()
+        inner, item = iter_next(it, inner, term, caller, depth)
+        return IterV(k, (inner, 0)), item
+    if k == "step_by":
+        inner, step, first = cur.a
+        if step == 0:
+            raise Diverge("step_by(0)")
+        if not first:
+            for _ in range(step - 1):
+                inner, item = iter_next(it, inner, term, caller, depth)
+                if item.variant == 0:
+                    return IterV(k, (inner, step, False)), none()
+        inner, item = iter_next(it, inner, term, caller, depth)
+        return IterV(k, (inner, step, False)), item
+    if k == "rev":
+        inner, item = iter_next(it, cur.a[0], term, caller, depth, back=not back)
+        return IterV(k, (inner,)), item
+    if k == "cloned":
+        inner, item = iter_next(it, cur.a[0], term, caller, depth, back)
+        if item.variant == 0:
+            return IterV(k, (inner,)), none()
+        return IterV(k, (inner,)), some(deref_val(it, item.fields[0]))
+    if k == "peekable":
+        inner, peeked = cur.a
+        if peeked is not None:
+            return IterV(k, (inner, None)), peeked
+        inner, item = iter_next(it, inner, term, caller, depth)
+        return IterV(k, (inner, None)), item
+    raise Unsupported("iterator kind %s" % k)
+
+
+class DequeV:
+    """model of VecDeque<T>"""
+    __slots__ = ("elems",)
+
+    def __init__(self, elems=()):
+        self.elems = tuple(elems)
+
+    def __repr__(self):
+        return "deque[%s]" % ", ".join(map(repr, self.elems))
+
+
+def deque_model(it, name, fn, args, dest_ty):
+    if name in ("new", "with_capacity", "default"):
+        return DequeV([])
+    if not args or not isinstance(args[0], Ref):
+        return NotImplemented
+    r = args[0]
+    v = it.read(r.cell, r.path)
+    if not isinstance(v, DequeV):
+        return NotImplemented
+    if name == "push_back":
+        it.write(r.cell, r.path, DequeV(v.elems + (args[1],)))
+        return Tup([])
+    if name == "push_front":
+        it.write(r.cell, r.path, DequeV((args[1],) + v.elems))
+        return Tup([])
+    if name == "clear":
+        it.write(r.cell, r.path, DequeV([]))
+        return Tup([])
+    if name == "len":
+        return Int(64, False, val=len(v.elems))
+    if name == "is_empty":
+        return mkbool(len(v.elems) == 0)
     return NotImplemented
